@@ -566,12 +566,12 @@ pub fn run(tier: Tier, replay: Option<String>) -> i32 {
         return ctx.finish();
     }
     let mut configs: Vec<(usize, usize)> = Vec::new();
-    let pages_list: Vec<usize> = if tier.thorough() { (0..=5).collect() } else { vec![0, 1, 2, 4] };
+    let pages_list: Vec<usize> = if tier.thorough() { (0..=6).collect() } else { vec![0, 1, 2, 4] };
     for page in [1usize, 2, 3] {
         for pages in &pages_list {
             for delta in [-1i64, 0, 1] {
                 let b = (*pages * page) as i64 + delta;
-                if b >= 0 && (b as usize).div_ceil(page) <= 6 {
+                if b >= 0 && (b as usize).div_ceil(page) <= 7 {
                     configs.push((b as usize, page));
                 }
             }
@@ -579,7 +579,7 @@ pub fn run(tier: Tier, replay: Option<String>) -> i32 {
     }
     configs.sort();
     configs.dedup();
-    let max_pages = if tier.thorough() { 6 } else { 5 };
+    let max_pages = if tier.thorough() { 7 } else { 5 };
     std::thread::scope(|s| {
         let ctx = &ctx;
         let chunks: Vec<Vec<(usize, usize)>> = (0..14).map(|i| configs.iter().cloned().skip(i).step_by(14).collect()).collect();
